@@ -10,6 +10,7 @@ violated by a time-out or by one of the internal exception types it names.
 (PLY, ElementTree and argparse are outside the Lean model; for them this differential run is the
 only evidence - the claim level of C13 is partial.)
 """
+import json
 import os
 import re
 import shutil
@@ -408,6 +409,43 @@ def run_c13(tier):
             chk.bump('model:' + ('cycle' if a.get('cycle') else 'sorted'))
             if a.get('cycle') and outcome == 'ok':
                 chk.correspondence_mismatch('Topo.sortDecls reports a cycle = prophyc reports an error', casej, outcome, a)
+        # the name-resolution loop of calc on random dictionaries (chains, cycles that do not contain their start, missing names,
+        # unevaluable constants): it returns or raises ParseError - within the time box - and agrees with Resolve.resolve
+        import prophyc.calc as calc
+        nreqs, nrows = [], []
+        for _ in range(chk.scale(300, 3000)):
+            names = ['N%d' % i for i in range(chk.rng.randint(1, 7))]
+            vars_ = {}
+            for vname in names:
+                r = chk.rng.random()
+                if r < 0.15:
+                    continue
+                vars_[vname] = chk.rng.randint(-5, 99) if r < 0.4 else None if r < 0.5 else chk.rng.choice(names + ['missing'])
+            start = chk.rng.choice(names)
+
+            def run(start=start, vars_=vars_):
+                try:
+                    return ['value', calc.eval(start, dict(vars_))]
+                except calc.ParseError as ex:
+                    return ['error', 'selfDefined' if 'defined by itself' in str(ex) else 'notFound' if 'not found' in str(ex) else str(ex)[:60]]
+            from harness.checks.pycodec import with_timeout
+            res = with_timeout(10, run)
+            casej = {'kind': 'calc-name-resolution', 'vars': vars_, 'name': start}
+            chk.count(('resolve', json.dumps(vars_, sort_keys=True), start), True)
+            chk.bump('calc-name-resolution:' + (res[1][0] if res[0] == 'ok' else res[0]))
+            if res[0] == 'timeout':
+                chk.property_violation(casej, {'what': 'calc did not resolve the name within 10 s of CPU time'})
+                continue
+            if res[0] != 'ok':
+                chk.property_violation(casej, {'what': 'calc raised %s instead of ParseError: %s' % (res[1], res[2][:100])})
+                continue
+            nreqs.append({'op': 'calc_resolve', 'vars': [[k, v] for k, v in vars_.items()], 'name': start})
+            nrows.append((casej, res[1]))
+        for (casej, impl), m in zip(nrows, client.batch(nreqs)):
+            chk.corr_compared += 1
+            want = ['value', m['value']] if 'value' in m else ['error', m['error']]
+            if impl != want:
+                chk.correspondence_mismatch('Resolve.resolve = calc.eval of a name', casej, impl, want)
         # token-level corruptions of generated schemas
         for si in range(chk.scale(60, 600)):
             sc = S.Gen(chk.rng, n_decls=6).schema()
